@@ -37,33 +37,45 @@ impl TTLTicker {
     }
 
     pub(crate) fn put(self: &Arc<TTLTicker>, key_id: KeyId, expire_after: ExpireAfter) {
+        #[cfg(cached_verif)]
+        let _verif_lock = crate::cache::verif::lock_scope("TickerShard");
         let shard_index = self.shard_index(&expire_after);
         self.shards[shard_index].write().insert(key_id, expire_after);
     }
 
     pub(crate) fn update(self: &Arc<TTLTicker>, key_id: KeyId, old_expiry: &ExpireAfter, new_expiry: ExpireAfter) {
         {
+            #[cfg(cached_verif)]
+            let _verif_lock = crate::cache::verif::lock_scope("TickerShard");
             let shard_index = self.shard_index(old_expiry);
             self.shards[shard_index].write().remove(&key_id);
         }
         {
+            #[cfg(cached_verif)]
+            let _verif_lock = crate::cache::verif::lock_scope("TickerShard");
             let shard_index = self.shard_index(&new_expiry);
             self.shards[shard_index].write().insert(key_id, new_expiry);
         }
     }
 
     pub(crate) fn delete(self: &Arc<TTLTicker>, key_id: &KeyId, expire_after: &ExpireAfter) {
+        #[cfg(cached_verif)]
+        let _verif_lock = crate::cache::verif::lock_scope("TickerShard");
         let shard_index = self.shard_index(expire_after);
         self.shards[shard_index].write().remove(key_id);
     }
 
     pub(crate) fn get(self: &Arc<TTLTicker>, key_id: &KeyId, expire_after: &ExpireAfter) -> Option<ExpireAfter> {
+        #[cfg(cached_verif)]
+        let _verif_lock = crate::cache::verif::lock_scope("TickerShard");
         let shard_index = self.shard_index(expire_after);
         self.shards[shard_index].read().get(key_id).copied()
     }
 
     pub(crate) fn clear(&self) {
         let _ = &self.shards.iter().for_each(|locked_store| {
+            #[cfg(cached_verif)]
+            let _verif_lock = crate::cache::verif::lock_scope("TickerShard");
             locked_store.write().clear();
         });
     }
@@ -100,6 +112,8 @@ impl TTLTicker {
             while let Ok(_instant) = receiver.recv() {
                 let now = clock.now();
                 let shard_index = self.shard_index(&now);
+                #[cfg(cached_verif)]
+                let _verif_lock = crate::cache::verif::lock_scope("TickerShard");
 
                 self.shards[shard_index].write().retain(|key, expire_after| {
                     let has_not_expired = now.le(expire_after);
@@ -109,6 +123,8 @@ impl TTLTicker {
                     }
                     has_not_expired
                 });
+                #[cfg(cached_verif)]
+                drop(_verif_lock);
 
                 if !keep_running.load(Ordering::Acquire) {
                     info!("Shutting down TTLTicker");
